@@ -17,7 +17,13 @@ RECURSIVE FixedItems(_, _)
 FixedItems(b, sz) == IF Len(b) < sz THEN Good(<<>>)
                      ELSE Good(<<Take(b, sz)>> \o FixedItems(Drop(b, sz), sz).x)
 
-FindKey(T, m, k) == LET S == {j \in 1..Len(m) : Eq(T.key, m[j][1], k)} IN IF S = {} THEN 0 ELSE CHOOSE j \in S : TRUE
+\* Go's key equality: +0 and -0 are one key, a NaN never equals anything (float keys are legal Go, if unwise)
+IsNaN(b) == LET n == Len(b) IN
+  IF n = 4 THEN (b[4] % 128 = 127) /\ (b[3] >= 128) /\ (b[1] # 0 \/ b[2] # 0 \/ b[3] # 128)
+  ELSE (b[8] % 128 = 127) /\ (b[7] >= 240) /\ (b[1] # 0 \/ b[2] # 0 \/ b[3] # 0 \/ b[4] # 0 \/ b[5] # 0 \/ b[6] # 0 \/ b[7] # 240)
+KeyEq(K0, a, b) == LET K == Resolve(K0) IN
+  IF K.k \in {"f32", "f64"} THEN ~IsNaN(a) /\ ((IsZeroFloat(a) /\ IsZeroFloat(b)) \/ a = b) ELSE Eq(K, a, b)
+FindKey(T, m, k) == LET S == {j \in 1..Len(m) : KeyEq(T.key, m[j][1], k)} IN IF S = {} THEN 0 ELSE CHOOSE j \in S : TRUE
 FirstIdx(fs, idx) == LET S == {i \in 1..Len(fs) : fs[i].enc /\ fs[i].i = idx} IN IF S = {} THEN 0 ELSE CHOOSE i \in S : TRUE
 LastFrame(frs, idx) == LET S == {i \in 1..Len(frs) : frs[i].idx = idx} IN
                        IF S = {} THEN 0 ELSE CHOOSE i \in S : \A j \in S : j <= i
@@ -91,7 +97,7 @@ DecEntry(cfg, T, item, m) ==
                 pv == IF j = 0 THEN Zero(T.val) ELSE m[j][2]
                 vr == IF iv = 0 THEN Ok(Zero(T.val)) ELSE DecField(cfg, T.val, frs[iv].wt, frs[iv].pay, pv) IN
             IF ~vr.ok THEN Err
-            ELSE Ok(IF j = 0 THEN Append(m, <<kr.v, vr.v>>) ELSE [m EXCEPT ![j] = <<kr.v, vr.v>>])
+            ELSE Ok(IF j = 0 THEN Append(m, <<kr.v, vr.v>>) ELSE [m EXCEPT ![j] = <<m[j][1], vr.v>>])    \* an existing key is kept (matters for -0 / +0 only)
 DecEntries(cfg, T, items, m) ==
   IF items = <<>> THEN Ok([nil |-> FALSE, m |-> m])
   ELSE LET r == DecEntry(cfg, T, items[1], m) IN
